@@ -77,6 +77,7 @@ class Tape(object):
 
     def __init__(self, ctx, fmt, events):
         self.ctx = ctx
+        self.rng = ctx.rng
         self.fmt = fmt
         self.dir = tempfile.mkdtemp(prefix='tape_', dir=ctx.tmp)
         self.image = os.path.join(self.dir, 'tape.' + fmt)
@@ -202,7 +203,22 @@ class Tape(object):
                 e['internal'] = True
             e['found'] = False if r[0] == 'err' and r[1] == 24 else e['found']
         if r[0] == 'ok':
-            if kind == 'D':
+            if kind == 'D' and nbytes > 0 and self.rng.random() < 0.4:
+                # read with INPUT$(k,#1) in chunks that do not divide the 255-byte tape record: a read that crosses a record
+                # boundary must deliver the bytes of both records and lose none (round-3 seeded change C29c)
+                k = self.rng.choice([2, 17, 85, 100, 100, 128, 200, 254, 255])
+                e['chunk'] = k
+                left = nbytes
+                while left > 0:
+                    q = self.s.ex('L$=INPUT$(%d,#1)' % min(k, left))
+                    if q[0] != 'ok':
+                        e['readerr'] = q[1] if q[0] == 'err' else -1
+                        e['internal'] = q[0] == 'internal'
+                        break
+                    got += bytes(self.s.s.get_variable('L$'))
+                    left -= min(k, left)
+                self.s.ex('CLOSE 1')
+            elif kind == 'D':
                 for _ in range(400):
                     q = self.s.ev('EOF(1)')
                     if q[0] != 'ok':
